@@ -72,6 +72,9 @@ def parseOp (o : Oracle Nat Nat) (j : Json) : R (Option (Ev Nat Nat) × Bool) :=
   | [.str "read", .str "done"] => return (readEv o (ReadRes.done : ReadRes Nat Nat), true)
   | [.str "write", raw, ck, w] => return (writeEv o (← raw.getNat?) (← ck.getBool?) (← parseWriteRes w), true)
   | [.str "assign", v] => return (some (assignEv (← v.getNat?)), false)
+  -- assignment to a parameter that is not exported: its funnel runs (`unexported_silent`), nothing is sent, the
+  -- observed parameter is untouched
+  | [.str "hidden", _] => return (none, false)
   | [.str "announce", v, e, vd] =>
     if e.isNull then return (some (.value (← v.getNat?) (← vd.getBool?)), false)
     else return (some (.error (← e.getNat?)), false)
